@@ -9,13 +9,14 @@ def sh(cmd, cwd=None, timeout=3600):
     p = subprocess.run(cmd, shell=True, cwd=cwd, env=ENV, stdout=subprocess.PIPE, stderr=subprocess.STDOUT, text=True, timeout=timeout)
     return p.returncode, p.stdout
 prefix = sys.argv[1] if len(sys.argv) > 1 else ""
+tag = prefix or "all"
 bad = []
 for m in sorted(glob.glob("/verif/seeded/*/meta.json")):
     sid = os.path.basename(os.path.dirname(m))
     if not sid.startswith(prefix):
         continue
     d = json.load(open(m))
-    wt = "/tmp/wt-recheck"
+    wt = "/tmp/wt-recheck-" + tag
     sh(f"git -C /repo worktree remove --force {wt}")
     sh(f"git -C /repo worktree add --detach {wt} HEAD")
     rc, out = sh(f"git -C {wt} apply /verif/seeded/{sid}/patch.diff")
@@ -27,11 +28,11 @@ for m in sorted(glob.glob("/verif/seeded/*/meta.json")):
     for chk in d.get("caught_by", []):
         if chk in ("C08",) and len(d["caught_by"]) > 1:
             continue  # slow; another check vouches for it
-        rc, out = sh(f"VERIF_REPO={wt} VERIF_EVIDENCE_DIR=/tmp/ev-recheck ./bin/check {chk} --tier quick", cwd="/verif")
+        rc, out = sh(f"VERIF_REPO={wt} VERIF_EVIDENCE_DIR=/tmp/ev-recheck-{tag} ./bin/check {chk} --tier quick", cwd="/verif")
         res[chk] = rc
     ok = any(v == 1 for v in res.values())
     print(sid, res, "OK" if ok else "NOT CAUGHT", flush=True)
     if not ok:
         bad.append(sid)
-sh("git -C /repo worktree remove --force /tmp/wt-recheck")
+sh(f"git -C /repo worktree remove --force /tmp/wt-recheck-{tag}")
 print("not caught / stale:", bad)
